@@ -95,6 +95,17 @@ def check_e2e(l, ln, u, res):
         got = {co.parse_fp2(t[i + 1]), co.parse_fp2(t[i + 2])}
         if got != want:
             fails.append("%s: pairings of the pushed basis are not e^u and e^(2^n-u) on the two factors" % name)
+    if "evalcmp" in t:
+        i = t.index("evalcmp")
+        names = ["(G,G')", "(K1_4.P1,G)", "(G,K1_4.P2)", "(K2_4.P1,G)", "(K2_4.P1+T2,G)", "(G,K2_4.P2)", "(K1_4.P1,K2_4.P2)"]
+        for nm, fl in zip(names, t[i + 1:i + 8]):
+            if fl[0] != "1":
+                fails.append("evalcmp: theta_chain_eval_no_help != theta_chain_eval on the point %s" % nm)
+            if fl[1] != "1":
+                fails.append("evalcmp: [4]F(P) != F([4]P) for the point %s" % nm)
+        kz = t[i + 8]
+        if kz != "11":
+            fails.append("evalcmp: theta_chain_eval_no_help does not send the kernel points K2_4 / K1_4 to (0,0) (flags %s)" % kz)
     return fails
 
 
